@@ -38,7 +38,10 @@ def data(ctx, i):
     # features far from the origin (|mean| / std up to 1e6): the identities may not depend on where the origin is
     offset = float(r.choice([0.0, 0.0, 1e3, 1e5, 1e6])) * r.choice([-1.0, 1.0], size=D)
     X = X + offset
-    if float(np.max(np.abs(offset))) == 0.0:
+    unit = float(r.choice([1.0, 1.0, 1.0, 1e-4, 1e-2, 1e3]))  # the unit of the features is arbitrary: both identities are unit-free
+    if unit != 1.0:
+        X = X * unit
+    elif float(np.max(np.abs(offset))) == 0.0:
         X = gen.maybe_int(r, X * 4.0, p=0.2, floats=False)  # integer-typed feature arrays (kept full rank by the spread)
     perm = r.permutation(N)
     X, lab = X[perm], lab[perm]
